@@ -273,13 +273,17 @@ def main(tier):
     tie["extra"]["subset_sizes"] = {str(k): v for k, v in sorted(sizes.items())}
 
     # ---- (a) enabled traits expand as in the full build; disabled ones are refused as unsupported
-    n_beh = 8 if tier == "quick" else 52
+    n_beh = 10 if tier == "quick" else 56
     beh = [("Ord",), ("Clone",), ("DerefMut",), ("PartialEq", "PartialOrd")]
     # one partner of a coupled pair switched off while everything else is on: the code paired by cfg(feature) /
     # cfg(not(feature)) meets the attributes of all the other traits
     beh += [tuple(t for t in TRAITS if t != "PartialOrd"), tuple(t for t in TRAITS if t not in ("Copy", "Eq", "DerefMut"))]
+    # a coupled pair on its own: the partner-reading code without any of the features its cfg expressions could be
+    # confused with
+    beh += [("PartialOrd", "Ord"), ("PartialEq", "Eq")]
     if tier != "quick":
         beh += [tuple(t for t in TRAITS if t != x) for x in TRAITS if x != "PartialOrd"]
+        beh += [("Clone", "Copy"), ("Deref", "DerefMut")]
     while len(beh) < n_beh:
         k = rng.randint(1, 8)
         s = tuple(sorted(rng.sample(TRAITS, k), key=TRAITS.index))
@@ -288,9 +292,12 @@ def main(tier):
     defs = list(enumerate(pool(rng, 150 if tier == "quick" else 600)))
     # inputs that are refused by design (C13's invalid-by-construction stream): a subset build must refuse them alike
     from .. import offences
-    off_all = [(k, src, named_traits(src)) for k, (label, classes, src) in enumerate(offences.generate())]
+    off_lab = [(k, src, named_traits(src), label) for k, (label, classes, src) in enumerate(offences.generate())]
+    # (the clause about attributes that one trait reads on behalf of its coupled partner is replayed in full)
+    keep = [x[:3] for x in off_lab if x[3] == "variant-attribute-of-educed-trait"]
+    off_all = [x[:3] for x in off_lab if x[3] != "variant-attribute-of-educed-trait"]
     rng.shuffle(off_all)
-    off_all = off_all[: (300 if tier == "quick" else 1500)]
+    off_all = keep + off_all[: (300 if tier == "quick" else 1500)]
     rc, errs, _ = check_subset(base, closure(TRAITS, table), os.path.join(work, "all"), link=True)
     so_all = os.path.join(work, "all", "libeduce.so")
     if rc != 0 or not os.path.exists(so_all):
@@ -368,7 +375,7 @@ def main(tier):
     tie["rule"] = ("(b) /repo/src/lib.rs compiled by rustc (--emit=metadata, the dependency artifacts of the real build, cargo's --check-cfg for the "
                    "declared features) once per feature subset, cfg set = closure of the subset under Cargo.toml's feature table: quick = the empty "
                    "set, 12 singletons, 12 complements, 66 pairs, 60 random; thorough = all 4096. Expected: no error and no warning; empty set: the "
-                   "explicit compile_error. (a) for 8 (thorough 52) subsets (among them all-but-PartialOrd, all-but-{Copy, Eq, DerefMut}; thorough: every all-but-one subset) the real proc-macro is linked and a pool of definitions naming only "
+                   "explicit compile_error. (a) for 10 (thorough 56) subsets (among them all-but-PartialOrd, all-but-{Copy, Eq, DerefMut}, the coupled pairs {PartialOrd, Ord} and {PartialEq, Eq} on their own; thorough: every all-but-one subset, {Clone, Copy}, {Deref, DerefMut}) the real proc-macro is linked and a pool of definitions naming only "
                    "enabled traits (fixed simple forms per trait and couple + the behavioural generators) is expanded with rustc -Zunpretty=expanded; "
                    "each module's expansion must equal the all-features build's; each disabled trait must be refused with `unsupported trait`, the "
                    "message listing exactly the enabled traits; inputs that are invalid by construction (C13's stream, those naming only enabled "
